@@ -121,19 +121,33 @@ def modelXf2 (B : Bool) (ws : List String) : String :=
 
 /-! #### binary algorithms -/
 
-inductive BinAlg where | copy | equal | ccopy (c : Conv) | rs (mat : List Int) | rsz
+inductive BinAlg where | copy | equal | ccopy (c : Conv) | rs (mat : List Int) | rsz | xcopy | xequal
 
 def parseBin (seed : Nat) (name : String) (extra : List String) : Option BinAlg :=
   match name, extra with
   | "copy", [] => some .copy | "equal", [] => some .equal
   | "ccopy", [] => some (.ccopy .default) | "ccopyx", [] => some (.ccopy (.sum (ccOffset seed)))
   | "rsz", [] => some .rsz
+  | "xcopy", [] => some .xcopy | "xequal", [] => some .xequal
   | "rs", e => if e.length = 6 then (ints e).map .rs else none
   | _, _ => none
 
+/-- the overload shape named by the op's mode word (`aa`/`ka`: any/any, `ac`: any/concrete, `ca`: concrete/any),
+    as written in algorithm.hpp -/
+def binMode {β : Type} (mode : String) (f : {t1 t2 : Tag} → View t1 → View t2 → Mem → β × Mem) {t1 t2 : Tag}
+    (va : View t1) (vb : View t2) (m : Mem) : Except Err β × Mem :=
+  if mode == "ac" then binAC f (wrap va) vb m
+  else if mode == "ca" then binCA f va (wrap vb) m
+  else binAA f (wrap va) (wrap vb) m
+
+def ccMode (mode : String) (c : Conv) {t1 t2 : Tag} (va : View t1) (vb : View t2) (m : Mem) : Except Err Unit × Mem :=
+  if mode == "ac" then ccAC c (wrap va) vb m
+  else if mode == "ca" then ccCA c va (wrap vb) m
+  else ccAA c (wrap va) (wrap vb) m
+
 def modelBin (B : Bool) (name : String) (ws : List String) : String :=
   match ws with
-  | _mode :: T1 :: T2 :: w1 :: h1 :: w2 :: h2 :: s1 :: s2 :: dpos :: extra =>
+  | mode :: T1 :: T2 :: w1 :: h1 :: w2 :: h2 :: s1 :: s2 :: dpos :: extra =>
     match Fmt.parse T1, Fmt.parse T2, [w1, h1, w2, h2, s1, s2].mapM String.toNat?, dpos.toInt?, parseBin (s1.toNat?.getD 0) name extra with
     | some f1, some f2, some [w1, h1, w2, h2, s1, s2], some dpos, some alg =>
       let L := if B then LB else match alg with | .ccopy _ => L6 | _ => L7
@@ -147,15 +161,20 @@ def modelBin (B : Bool) (name : String) (ws : List String) : String :=
       let a : AnyView := wrap va; let b : AnyView := wrap vb
       let compat := compatible f1 f2
       let needsCompat := match alg with | .ccopy _ => false | _ => true
-      let needsDims := match alg with | .copy | .equal | .ccopy _ => true | _ => false
+      let needsDims := match alg with | .copy | .equal | .ccopy _ | .xcopy | .xequal => true | _ => false
       -- the concrete algorithm asserts equal dimensions (reached only when the pair is one the call is defined for)
       if needsDims && (compat || !needsCompat) && !sameDims a b then s!"compat={b01 compat} A:assert | C:assert | D0={d0}" else
       let (st, r, m1) : String × String × Mem := match alg with
-        | .copy => match anyCopyPixels a b m0 with | (.ok _, m) => ("ok", "", m) | (.error _, m) => ("err:bad_cast", "", m)
-        | .equal => match anyEqualPixels a b m0 with | (.ok e, m) => ("ok", " r=" ++ b01 e, m) | (.error _, m) => ("err:bad_cast", "", m)
-        | .ccopy c => match anyCopyAndConvert c a b m0 with | (.ok _, m) => ("ok", "", m) | (.error _, m) => ("err:bad_cast", "", m)
-        | .rs mat => match anyResample mat a b m0 with | (.ok _, m) => ("ok", "", m) | (.error _, m) => ("err:bad_cast", "", m)
-        | .rsz => match anyResize a b m0 with | (.ok _, m) => ("ok", "", m) | (.error _, m) => ("err:bad_cast", "", m)
+        | .copy => match binMode mode (fun s d m => ((), copyPixels s d m)) va vb m0 with | (.ok _, m) => ("ok", "", m) | (.error _, m) => ("err:bad_cast", "", m)
+        | .equal => match binMode mode (fun s d m => (equalPixels s d m, m)) va vb m0 with | (.ok e, m) => ("ok", " r=" ++ b01 e, m) | (.error _, m) => ("err:bad_cast", "", m)
+        | .ccopy c => match ccMode mode c va vb m0 with | (.ok _, m) => ("ok", "", m) | (.error _, m) => ("err:bad_cast", "", m)
+        | .rs mat => match binMode mode (fun s d m => ((), resampleNN mat s d m)) va vb m0 with | (.ok _, m) => ("ok", "", m) | (.error _, m) => ("err:bad_cast", "", m)
+        -- the algorithm on RESULTS of lifted transformations (harness/C14/xbin.cpp)
+        | .xcopy => match binMode mode (fun s d m => ((), copyPixels s d m)) (Xf.flipLR.apply va) (Xf.rot180.apply vb) m0 with
+          | (.ok _, m) => ("ok", "", m) | (.error _, m) => ("err:bad_cast", "", m)
+        | .xequal => match binMode mode (fun s d m => (equalPixels s d m, m)) ((Xf.subs 2 1).apply va) ((Xf.subs 2 1).apply vb) m0 with
+          | (.ok e, m) => ("ok", " r=" ++ b01 e, m) | (.error _, m) => ("err:bad_cast", "", m)
+        | .rsz => match binMode mode (fun s d m => ((), resampleNNF (resizeMatrix s.w s.h d.w d.h) s d m)) va vb m0 with | (.ok _, m) => ("ok", "", m) | (.error _, m) => ("err:bad_cast", "", m)
       let dst := dumpHex vb f2.bits m1
       let src := dumpHex va f1.bits m1
       let C := if compat || !needsCompat then s!"C:ok{r} dst={dst}" else "C:n/a"
@@ -194,6 +213,54 @@ def modelForeach (B : Bool) (ws : List String) : String :=
       let (n, m) := anyForEach (wrap v) hp.mem
       let d := dumpHex v f.bits m
       s!"A:ok n={n} dst={d} | C:ok n={n} dst={d}"
+    | _, _ => "bad-op"
+  | _ => "bad-op"
+
+/-- the lifted transformation an `xfill` / `xforeach` op sends the view through before the algorithm -/
+def parseKind (kind : String) (a b w h : Nat) : Option Xf :=
+  if w < 1 || h < 1 then none
+  else if kind == "fliplr" then some .flipLR
+  else if kind == "subs" then (if a ≥ 1 ∧ b ≥ 1 then some (.subs a b) else none)
+  else if kind == "sub" then (if a < w ∧ b < h then some (.sub a b (w - a) (h - b)) else none)
+  else none
+
+def modelXFill (B : Bool) (ws : List String) : String :=
+  match ws with
+  | [T, P, w, h, s, kind, ka, kb, c0, c1, c2, c3] =>
+    match Fmt.parse T, Fmt.parse P, [w, h, s, ka, kb, c0, c1, c2, c3].mapM String.toNat? with
+    | some f, some pf, some [w, h, s, ka, kb, c0, c1, c2, c3] =>
+      if !(if B then LB else L7).contains f then "bad-type" else
+      if !["g8", "bgr8", "rgb16", "argb8", "g16"].contains P then "bad-op" else
+      match parseKind kind ka kb w h with
+      | none => "bad-op"
+      | some x =>
+        let (img, hp) := heap0.make f w h s
+        let v := img.view
+        let av := x.lift (wrap v)                   -- the run-time typed result of the lifted transformation
+        let sem := ([c0, c1, c2, c3].take pf.nc).map (· % 2 ^ pf.bits)
+        let p := fromSem pf sem
+        let compat := compatible f pf
+        let d0 := dumpHex v f.bits hp.mem
+        match anyFillPixels av pf p hp.mem with
+        | (.ok _, m) => let d := dumpHex v f.bits m; s!"compat={b01 compat} A:ok dst={d} | C:ok dst={d} | D0={d0}"
+        | (.error _, m) => s!"compat={b01 compat} A:err:bad_cast dst={dumpHex v f.bits m} | C:n/a | D0={d0}"
+    | _, _, _ => "bad-op"
+  | _ => "bad-op"
+
+def modelXForeach (B : Bool) (ws : List String) : String :=
+  match ws with
+  | [T, w, h, s, kind, ka, kb] =>
+    match Fmt.parse T, [w, h, s, ka, kb].mapM String.toNat? with
+    | some f, some [w, h, s, ka, kb] =>
+      if !(if B then LB else L7).contains f then "bad-type" else
+      match parseKind kind ka kb w h with
+      | none => "bad-op"
+      | some x =>
+        let (img, hp) := heap0.make f w h s
+        let v := img.view
+        let (n, m) := anyForEach (x.lift (wrap v)) hp.mem
+        let d := dumpHex v f.bits m
+        s!"A:ok n={n} dst={d} | C:ok n={n} dst={d}"
     | _, _ => "bad-op"
   | _ => "bad-op"
 
@@ -270,6 +337,50 @@ def modelImg (B : Bool) (ws : List String) : String :=
       let r := s!"eq2={b01 eq2} eq3={b01 eq3} eqd={b01 eqd} a={dumpImg a hp2.mem} rd={dumpHex v.2 f.bits hp2.mem}"
       s!"A: i2={i} i3={i} {r} | C: {r}"
     | _, _, _ => "bad-op"
+  | ["default"] =>
+    match L7 with
+    | f :: _ =>
+      let a := AnyImage.dflt f
+      let v := a.view
+      let c := s!"w={a.width} h={a.height} nc={a.numChannels} vw={v.width} vh={v.height} vnc={v.numChannels} vsz={v.size}"
+      s!"A: i={a.index L7} w={a.width} h={a.height} nc={a.numChannels} vi={v.index (L7.map Tag.ofFmt)} vw={v.width} vh={v.height} vnc={v.numChannels} vsz={v.size} | C: {c}"
+    | [] => "bad-op"
+  | ["atc", T] =>
+    match Fmt.parse T with
+    | some f =>
+      if !L7.contains f then "bad-type" else
+      let (img, _) := heap0.make f 1 1 1
+      let a : AnyImage := ⟨f, img⟩
+      s!"A: n={atC (L7.map Fmt.nc) (a.index L7)} nc={a.numChannels} | C: n={f.nc} nc={f.nc}"
+    | none => "bad-op"
+  | ["vassign", T, T0, w, h, s, how] =>
+    match Fmt.parse T, Fmt.parse T0, [w, h, s].mapM String.toNat? with
+    | some f, some _f0, some [w, h, s] =>
+      if how == "subset" && (B || !LS.contains f) then "bad-op" else
+      if !(how == "conc" || how == "ctor" || how == "subset") then "bad-op" else
+      let (img, hp) := heap0.make f w h s
+      let a : AnyImage := ⟨f, img⟩
+      let v := a.view
+      let vc : AnyView := wrap a.2.view    -- assignment from the concrete view / a variant built from it: the held view, wrapped
+      let i := vc.index (L7.map Tag.ofFmt)
+      let eq := v.beq vc
+      let m1 := toggleAt vc.2 hp.mem 0 0
+      let r := s!"eq={b01 eq} w={vc.width} h={vc.height} nc={vc.numChannels} sz={vc.size} a={dumpImg a m1} rd={dumpHex vc.2 f.bits m1}"
+      s!"A: i={i} {r} | C: {r}"
+    | _, _, _ => "bad-op"
+  | ["applyop", T, T0, w, h, s] =>
+    match Fmt.parse T, Fmt.parse T0, [w, h, s].mapM String.toNat? with
+    | some f, some f0, some [w, h, s] =>
+      let (img, hp) := heap0.make f w h s
+      let (img0, _) := hp.make f0 2 2 (s + 1)
+      let a : AnyImage := ⟨f, img⟩; let b : AnyImage := ⟨f0, img0⟩
+      let dw := applyOperation1 a.view (fun v => v.w)
+      let dh := applyOperation1 a.view (fun v => v.h)
+      let sz := applyOperation1 a.view (fun v => v.w * v.h)
+      let n12 := applyOperation2 a.view b.view (fun {t1 t2} (_ : View t1) (_ : View t2) => 10 * t1.fmt.nc + t2.fmt.nc)
+      let r := s!"w={dw} h={dh} sz={sz} n12={n12}"
+      s!"A: {r} | C: {r}"
+    | _, _, _ => "bad-op"
   | ["recreate", T, w, h, s, w2, h2, how] =>
     match Fmt.parse T, [w, h, s, w2, h2].mapM String.toNat? with
     | some f, some [w, h, s, w2, h2] =>
@@ -295,8 +406,10 @@ def model (line : String) : String :=
   | "xf2" :: rest => modelXf2 B rest
   | "fill" :: rest => modelFill B rest
   | "foreach" :: rest => modelForeach B rest
+  | "xfill" :: rest => modelXFill B rest
+  | "xforeach" :: rest => modelXForeach B rest
   | "img" :: rest => modelImg B rest
-  | name :: rest => if ["copy", "equal", "ccopy", "ccopyx", "rs", "rsz"].contains name then modelBin B name rest else "bad-op"
+  | name :: rest => if ["copy", "equal", "ccopy", "ccopyx", "rs", "rsz", "xcopy", "xequal"].contains name then modelBin B name rest else "bad-op"
   | _ => "bad-op"
 
 /-! ### judge: the Spec of C14 evaluated on the IMPLEMENTATION's observation
@@ -379,7 +492,7 @@ def judgeBin (name : String) (ws : List String) (obs : String) : String :=
             if st != "A:ok" then fail ("defined-pair-does-not-succeed:" ++ st)
             else if field "r" arest != field "r" crest then fail "return-value-differs-from-concrete"
             else if field "dst" arest != field "dst" crest then fail "destination-differs-from-concrete"
-            else if name == "equal" && field "dst" arest != field "D0" D0 then fail "equal_pixels-modified-destination"
+            else if (name == "equal" || name == "xequal") && field "dst" arest != field "D0" D0 then fail "equal_pixels-modified-destination"
             else "ok"
           | _ => fail "concrete-call-missing"
         else
@@ -465,6 +578,33 @@ def judgeImg (B : Bool) (ws : List String) (obs : String) : String :=
       else if without ["i2", "i3"] a != c then fail "view-copy-differs-from-concrete"
       else "ok"
     | _, _ => fail ("unexpected-observation:" ++ obs.take 60)
+  | "vassign" :: T :: _ =>
+    match Fmt.parse T, parts with
+    | some f, ["A:" :: a, "C:" :: c] =>
+      if field "i" a != some (toString (indexOf f L7)) then fail "view-assigned-from-concrete-does-not-hold-its-alternative"
+      else if field "eq" a != some "1" then fail "assigned-view-not-equal-to-source-view"
+      else if field "a" a != field "rd" a then fail "write-through-assigned-view-not-visible-in-image"
+      else if without ["i"] a != c then fail "assigned-view-differs-from-concrete"
+      else "ok"
+    | _, _ => fail ("unexpected-observation:" ++ obs.take 60)
+  | ["default"] =>
+    match parts with
+    | ["A:" :: a, "C:" :: c] =>
+      if field "i" a != some "0" || field "vi" a != some "0" then fail "default-constructed-does-not-hold-first-alternative"
+      else if without ["i", "vi"] a != c then fail "default-constructed-differs-from-concrete"
+      else "ok"
+    | _ => fail ("unexpected-observation:" ++ obs.take 60)
+  | ["atc", _] =>
+    match parts with
+    | ["A:" :: a, "C:" :: c] =>
+      if field "nc" a != field "nc" c then fail "image-num_channels-differs-from-concrete"
+      else if a != c then fail "at_c-table-lookup-differs-from-num_channels"
+      else "ok"
+    | _ => fail ("unexpected-observation:" ++ obs.take 60)
+  | "applyop" :: _ =>
+    match parts with
+    | ["A:" :: a, "C:" :: c] => if a != c then fail "apply_operation-differs-from-concrete" else "ok"
+    | _ => fail ("unexpected-observation:" ++ obs.take 60)
   | "recreate" :: T :: _ =>
     match Fmt.parse T, parts with
     | some f, ["A:" :: a, "C:" :: c] =>
@@ -482,8 +622,10 @@ def judge (op obs : String) : String :=
   | "xf2" :: rest => judgeXf2 B rest obs
   | "fill" :: rest => judgeFill rest obs
   | "foreach" :: _ => judgeForeach obs
+  | "xfill" :: rest => judgeFill rest obs
+  | "xforeach" :: _ => judgeForeach obs
   | "img" :: rest => judgeImg B rest obs
-  | name :: rest => if ["copy", "equal", "ccopy", "ccopyx", "rs", "rsz"].contains name then judgeBin name rest obs else fail "bad-op"
+  | name :: rest => if ["copy", "equal", "ccopy", "ccopyx", "rs", "rsz", "xcopy", "xequal"].contains name then judgeBin name rest obs else fail "bad-op"
   | _ => fail "bad-op"
 
 def main (args : List String) : IO UInt32 := Driver.main' model judge args
